@@ -290,7 +290,8 @@ pub fn exec(file: &SimFile, res: &impl Resolve, own_resolver: bool, op: &Op) -> 
             Ty::Font => answer(res.get::<Font>(r(id))),
             Ty::XObject => answer(res.get::<XObject>(r(id))),
             Ty::ObjStm => objstm_answer(res, id),
-            Ty::Stream => answer(res.get::<Stream<()>>(r(id))),
+            // the Debug form of a stream shows its length only: the filter list with its parameters is part of the answer
+            Ty::Stream => answer_text(res.get::<Stream<()>>(r(id)).map(|s| format!("{:?} filters={}", *s, crate::digest::debug_bounded(&s.info.filters)))),
             Ty::NameTree => answer(res.get::<NameTree<Primitive>>(r(id))),
             Ty::NumTree => answer(res.get::<NumberTree<PageLabel>>(r(id))),
             Ty::Outline => answer(res.get::<OutlineItem>(r(id))),
